@@ -1022,5 +1022,3 @@ func genDeleg(r *vh.Rand, maxOps int) *DelegCase {
 	}
 	return c
 }
-
-func meshEvidence(t *testing.T, run *vh.Run) {}
